@@ -154,4 +154,67 @@ theorem C08_reachable_writer_is_source {q b : Nat} {c0 c : Cfg St Thread} (h0 : 
   rw [← heq] at this
   exact this
 
+/-! ### The pipeline follows the source: a known-bad source gives the known-bad model
+
+A validation of translator + interpreter in the other direction: had the loop condition been written
+`bw.scheduledCount.Load() != 0 || bw.running.Load()` (mutation N20), `loopgen` would emit the loads in that order, and the
+interpreted program is then exactly the model `stepWriterSwapped`, for which `C08_loop_condition_order_witness` proves a
+violating schedule. -/
+
+/-- the generated term with the loads of the loop condition in the other order -/
+def fn_swappedLoads : List Loop.WS :=
+  fn_runBatchWriter.map (fun s => match s with
+    | .forCond loads body => .forCond loads.reverse body
+    | s => s)
+
+theorem loop_compile_swapped : compile fn_swappedLoads =
+    [.brLoad .countNonZero 2 1, .brLoad .running 2 28, .newCollector, .setFlush false, .timer,
+      .select [(.recvQueue, 6), (.recvFlush, 10), (.recvTimer, 13)],
+      .add 7 9, .commit, .jmp 17 false, .jmp 16 false, .setFlush true, .jmp 17 false, .jmp 16 false,
+      .commit, .jmp 17 false, .jmp 16 false, .jmp 5 false, .brFlush 27,
+      .select [(.recvQueue, 19), (.dflt, 23)],
+      .add 20 22, .commit, .newCollector, .jmp 26 false, .commit, .jmp 27 false, .jmp 26 false, .jmp 18 false,
+      .jmp 0 true, .wgDone] := by decide
+
+theorem swapped_add (s : St) (idx : Nat) (hi : idx = 6 ∨ idx = 19) (ph : Phase) (hp : ph = .top ∨ ph = .dec ∨ ph = .write) :
+    stepWriterSwapped (absW s idx ph) =
+      (stepD (compile fn_swappedLoads) (absW s idx ph) idx ph).map (fun x => absW x.1 x.2.1 x.2.2) := by
+  rw [loop_compile_swapped]
+  rcases hi with rfl | rfl <;> rcases hp with rfl | rfl | rfl
+  · simp [stepWriterSwapped, stepWriter, recvStep, afterCommit, stepD, restStep, selectAlt, runLocal, localStep, absW, wpcIdx, emit]
+  · simp [stepWriterSwapped, stepWriter, recvStep, afterCommit, stepD, restStep, selectAlt, runLocal, localStep, absW, wpcIdx, emit]
+  · by_cases hb : s.bsize ≤ s.batch.length + 1 <;> simp [stepWriterSwapped, stepWriter, recvStep, afterCommit, stepD, restStep, selectAlt, runLocal, localStep, absW, wpcIdx, emit, hb]
+  · simp [stepWriterSwapped, stepWriter, recvStep, afterCommit, stepD, restStep, selectAlt, runLocal, localStep, absW, wpcIdx, emit]
+  · simp [stepWriterSwapped, stepWriter, recvStep, afterCommit, stepD, restStep, selectAlt, runLocal, localStep, absW, wpcIdx, emit]
+  · by_cases hb : s.bsize ≤ s.batch.length + 1 <;> simp [stepWriterSwapped, stepWriter, recvStep, afterCommit, stepD, restStep, selectAlt, runLocal, localStep, absW, wpcIdx, emit, hb]
+
+theorem swapped_commit (s : St) (idx : Nat) (hi : idx = 7 ∨ idx = 13 ∨ idx = 20 ∨ idx = 23) (ph : Phase)
+    (hp : ph = .top ∨ ph = .done) :
+    stepWriterSwapped (absW s idx ph) =
+      (stepD (compile fn_swappedLoads) (absW s idx ph) idx ph).map (fun x => absW x.1 x.2.1 x.2.2) := by
+  rw [loop_compile_swapped]
+  rcases hi with rfl | rfl | rfl | rfl <;> rcases hp with rfl | rfl
+  · cases hb : s.batch <;> simp [stepWriterSwapped, stepWriter, recvStep, afterCommit, stepD, restStep, selectAlt, runLocal, localStep, absW, wpcIdx, emit, hb]
+  · cases ht : s.todo <;> simp [stepWriterSwapped, stepWriter, recvStep, afterCommit, stepD, restStep, selectAlt, runLocal, localStep, absW, wpcIdx, emit, ht]
+  · cases hb : s.batch <;> simp [stepWriterSwapped, stepWriter, recvStep, afterCommit, stepD, restStep, selectAlt, runLocal, localStep, absW, wpcIdx, emit, hb]
+  · cases ht : s.todo <;> simp [stepWriterSwapped, stepWriter, recvStep, afterCommit, stepD, restStep, selectAlt, runLocal, localStep, absW, wpcIdx, emit, ht]
+  · cases hb : s.batch <;> simp [stepWriterSwapped, stepWriter, recvStep, afterCommit, stepD, restStep, selectAlt, runLocal, localStep, absW, wpcIdx, emit, hb]
+  · cases ht : s.todo <;> simp [stepWriterSwapped, stepWriter, recvStep, afterCommit, stepD, restStep, selectAlt, runLocal, localStep, absW, wpcIdx, emit, ht]
+  · cases hb : s.batch <;> simp [stepWriterSwapped, stepWriter, recvStep, afterCommit, stepD, restStep, selectAlt, runLocal, localStep, absW, wpcIdx, emit, hb]
+  · cases ht : s.todo <;> simp [stepWriterSwapped, stepWriter, recvStep, afterCommit, stepD, restStep, selectAlt, runLocal, localStep, absW, wpcIdx, emit, ht]
+
+theorem C08_swapped_source_is_swapped_model (s : St) (idx : Nat) (ph : Phase) (h : restingW idx ph) :
+    stepWriterSwapped (absW s idx ph) =
+      (stepD (compile fn_swappedLoads) (absW s idx ph) idx ph).map (fun x => absW x.1 x.2.1 x.2.2) := by
+  rcases h with ⟨hi, rfl⟩ | ⟨hi, hp⟩ | ⟨hi, hp⟩
+  · rw [loop_compile_swapped]
+    rcases hi with rfl | rfl | rfl | rfl | rfl
+    · by_cases h : s.count = 0 <;> simp [stepWriterSwapped, stepWriter, recvStep, afterCommit, stepD, restStep, selectAlt, runLocal, localStep, absW, wpcIdx, emit, h]
+    · by_cases h : s.running <;> simp [stepWriterSwapped, stepWriter, recvStep, afterCommit, stepD, restStep, selectAlt, runLocal, localStep, absW, wpcIdx, emit, h]
+    · cases hq : s.queue <;> by_cases hf : s.flushCh <;> simp [stepWriterSwapped, stepWriter, recvStep, afterCommit, stepD, restStep, selectAlt, runLocal, localStep, absW, wpcIdx, emit, hq, hf]
+    · cases hq : s.queue <;> simp [stepWriterSwapped, stepWriter, recvStep, afterCommit, stepD, restStep, selectAlt, runLocal, localStep, absW, wpcIdx, emit, hq]
+    · simp [stepWriterSwapped, stepWriter, recvStep, afterCommit, stepD, restStep, selectAlt, runLocal, localStep, absW, wpcIdx, emit]
+  · exact swapped_add s idx hi ph hp
+  · exact swapped_commit s idx hi ph hp
+
 end Hive.BatchWriter
